@@ -8,6 +8,12 @@ hook_commits = [l.split()[0] for l in REPO_HOOK_COMMITS if l.split(" ", 1)[1].st
 
 # id -> (technique, level text, level note, design section)
 CHECKS = {
+    "C07": (
+        "differential against a bit-level reference codec (proptest, grammar-built strings) + complete enumeration of short strings",
+        "compress and decompress are compared with an independent bit-string transcription of Algorithms 17/18 in both directions: generated vectors at the edge of the byte budget, grammar-built strings steered to the end of the buffer at the production sizes, and every string of length <= 3 bytes (quick) / 4 bytes (thorough). Complete only on the enumerated short strings; sampled elsewhere.",
+        "Trusted: refimpl::codec (self-tested round trip, rejects runs >= 95 as the codec's documented domain requires); the compress/decompress hook wrappers.",
+        "3/C07",
+    ),
     "C12": (
         "exhaustive enumeration against an i64 reference + proptest for batch inversion",
         "Every element operation is compared with i64/rem_euclid arithmetic on its complete finite domain (all q^2 operand pairs, all q residues, all 65536 i16 inputs), so for those operations the result is a complete decision on this build; batch inversion is sampled with generated vectors.",
